@@ -54,13 +54,56 @@ def tags_of_classes(prog, M, classes):
     return tags
 
 
+def insertion_wrappers(prog, M):
+    """Methods of element classes that do nothing but `self.insert_element_before(<their parameter>, <constant tags>)`: name ->
+    (FuncInfo, index of the element parameter, [tags]).  A call of such a method is the insertion it makes (with the caller's
+    argument), and is analysed at the call site, where the inserted element is known."""
+    out = {}
+    for c in M.oxml_classes():
+        for name, f in c.methods.items():
+            body = [s_ for s_ in f.node.body if not (isinstance(s_, ast.Expr) and isinstance(s_.value, ast.Constant))]
+            if len(body) != 1 or not isinstance(body[0], (ast.Return, ast.Expr)) or not isinstance(body[0].value, ast.Call):
+                continue
+            c0 = body[0].value
+            if dotted(c0.func) != "self.insert_element_before" or not c0.args or c0.keywords:
+                continue
+            ps = f.params[1:]
+            if not (isinstance(c0.args[0], ast.Name) and c0.args[0].id in ps):
+                continue
+            tags, okt = [], True
+            for a in c0.args[1:]:
+                v = prog.const(a.value if isinstance(a, ast.Starred) else a, f.module, None, c)
+                if isinstance(a, ast.Starred) and isinstance(v, (tuple, list)) and all(isinstance(x, str) for x in v):
+                    tags += list(v)
+                elif not isinstance(a, ast.Starred) and isinstance(v, str):
+                    tags.append(v)
+                else:
+                    okt = False
+            if okt and name not in RAW_METHODS:
+                out[name] = (f, ps.index(c0.args[0].id), tags)
+    return out
+
+
 def collect_sites(prog, M, T):
     sites = []
+    wrappers = insertion_wrappers(prog, M)
     for f in prog.all_functions():
         if f.module.name == "pptx.oxml.xmlchemy":
             continue
+        if any(w[0] is f for w in wrappers.values()):
+            continue   # analysed at its call sites
         fc = FCtx(f)
         for n in walk_own(f.node):
+            if isinstance(n, ast.Call) and isinstance(n.func, ast.Attribute) and n.func.attr in wrappers and not n.keywords \
+                    and len(n.args) > wrappers[n.func.attr][1]:
+                _wf, wi, wtags = wrappers[n.func.attr]
+                syn = ast.Call(func=ast.Attribute(value=n.func.value, attr="insert_element_before", ctx=ast.Load()),
+                               args=[n.args[wi]] + [ast.Constant(value=t_) for t_ in wtags], keywords=[])
+                ast.copy_location(syn, n)
+                ast.copy_location(syn.func, n.func)
+                for a_ in syn.args[1:]:
+                    ast.copy_location(a_, n)
+                n = syn
             if isinstance(n, ast.Call) and isinstance(n.func, ast.Attribute) and n.func.attr in RAW_METHODS:
                 rt = T.expr(n.func.value, fc)
                 cls, unk = elem_classes(T, M, rt)
